@@ -5,6 +5,6 @@ wt=/tmp/seedcheck-$$
 git -C /repo worktree add -q --detach $wt HEAD || exit 2
 (cd $wt && (git apply $src/patch.diff 2>/dev/null || git apply -3 $src/patch.diff >/dev/null 2>&1)) || { echo "patch does not apply"; git -C /repo worktree remove --force $wt; exit 2; }
 for c in "$@"; do
-  VERIF_REPO=$wt ${VERIF_HOME:-/verif}/check $c ${TIER:-quick} 2>&1 | grep -E "^(VIOLATION|OK|UNDECIDED|KNOWN|  \")" | cut -c1-${WIDTH:-400}
+  VERIF_REPO=$wt ${VERIF_HOME:-/verif}/check $c ${TIER:-quick} 2>&1 | grep -E "^(VIOLATION|OK|CANNOT|KNOWN|  \")" | cut -c1-${WIDTH:-400}
 done
 git -C /repo worktree remove --force $wt
